@@ -6,8 +6,10 @@
 
     Definitions only.  The model follows the CODE (probed 2026-09-23), including where it deviates from
     properties C10/C19:
-      - the RX routing step records the route's action ('forward') in [actions] at routing time, so a
-        report emitted after a FAILED forward asserts 'forwarded' together with 'deleted';
+      - the RX routing step records the route's action ('forward') in [actions] at routing time; when
+        forwarding fails [_do_fwd] removes it again before recording delete / NO_ROUTE.  One case is left
+        where 'forwarded' is asserted although nothing reached a CL: the fragment step took the bundle
+        over on a route whose CL is not attached (every fragment then fails in its own [send_bundle]);
       - [_apply_primary] rewrites a zero creation time before transmission, and the report built afterwards
         names the rewritten timestamp as its subject;
       - fragments that are routed to 'deliver' have their actions cleared by the reassembly step (no
@@ -328,10 +330,10 @@ Section WithMatch.
 
   Definition fwd_plan (a : agent) (b : bundle) (acts : list action) (reason : option N)
     : agent * bundle * list action * option N * list event :=
-    if b_prep b =? 1 then (a, b, add ADel acts, Some fwd_fail_reason, [])
+    if b_prep b =? 1 then (a, b, add ADel (remove AFwd acts), Some fwd_fail_reason, [])
     else
       let a1 := if b_time b =? 0 then a else tick a in                 (* age = timestamp() - creation *)
-      if negb (b_time b =? 0) && (b_prep b =? 2) then (a1, b, add ADel acts, Some fwd_fail_reason, [])
+      if negb (b_time b =? 0) && (b_prep b =? 2) then (a1, b, add ADel (remove AFwd acts), Some fwd_fail_reason, [])
       else
         (* send_bundle: _apply_primary replaces a zero creation time *)
         let a2 := if b_time b =? 0 then tick a1 else a1 in
@@ -339,7 +341,7 @@ Section WithMatch.
         match send_path a2 (b_dst b') (b_size b') (has_flag (b_flags b') FLAG_NO_FRAGMENT) (is_frag b') (b_fragfeas b') with
         | SentWhole k => (a2, b', add AFwd acts, reason, [EvTx b b' k])
         | SentFrags k cl => (a2, b', add AFwd acts, reason, [if cl then EvFrags b b' k else EvSendFail b false])
-        | SendRaise => (a2, b', add ADel acts, Some fwd_fail_reason, [EvSendFail b false])
+        | SendRaise => (a2, b', add ADel (remove AFwd acts), Some fwd_fail_reason, [EvSendFail b false])
         end.
 
   Definition do_fwd (a : agent) (b : bundle) (acts : list action) (reason : option N) : agent * list event :=
